@@ -159,6 +159,17 @@ func genCerts(g *G, count int) {
 			}
 		}
 	}
+	// KEY certificates whose declared payload is longer than the two type fields (excess payload is legal): the type
+	// codes are the FIRST four payload bytes on every route (bytes → KeyCertificate, Certificate → KeyCertificate)
+	g.in("keycert-excess-payload")
+	for _, p := range [][2]int{{7, 4}, {0, 0}, {1, 0}, {11, 4}, {2, 0}, {7, 0}} {
+		for _, extra := range []int{1, 2, 4, 5, 8} {
+			b := encKeyCert(p[0], p[1], r.bytes(extra))
+			g.emit("readKeyCert", hx(b))
+			g.emit("readCert", hx(b))
+			g.emit("readKeyCert", hx(cat(b, r.bytes(3))))
+		}
+	}
 	g.in("cert-shapes")
 	for i := 0; i < count; i++ {
 		t := byte(r.pick(0, 0, 1, 2, 3, 4, 5, 5, 5, 5, 6, 255))
